@@ -30,6 +30,8 @@ pub struct ReadScript {
     pub err_at: Option<(usize, ErrorKind)>,
     /// return Interrupted at these call indices
     pub interrupt_at: Vec<usize>,
+    /// > 0: return Interrupted at every call whose index is `every - 1` modulo `every`
+    pub interrupt_every: usize,
     /// the source ends here
     pub truncate_at: Option<usize>,
     /// error is sticky (every later call fails too)
@@ -70,7 +72,7 @@ impl Read for FaultReader {
                 return Err(io::Error::new(kind, "VERIF-INJECTED"));
             }
         }
-        if self.script.interrupt_at.contains(&call) {
+        if self.script.interrupt_at.contains(&call) || (self.script.interrupt_every > 0 && call % self.script.interrupt_every == self.script.interrupt_every - 1) {
             st.interrupts += 1;
             return Err(io::Error::new(ErrorKind::Interrupted, "VERIF-INTERRUPTED"));
         }
